@@ -277,6 +277,8 @@ def main():
     scratch = req.get('scratch') or tempfile.mkdtemp(prefix='mverif-C03-impl-', dir='/var/tmp')
     own = 'scratch' not in req
     out = {}
+    real_stdout = sys.stdout
+    sys.stdout = sys.stderr          # anything the code under test prints must not corrupt the JSON answer
     try:
         if 'cases' in req:
             out['results'] = [safe(fn, args, scratch) for fn, args in req['cases']]
@@ -291,6 +293,7 @@ def main():
     finally:
         if own:
             shutil.rmtree(scratch, ignore_errors=True)
+    sys.stdout = real_stdout
     json.dump(out, sys.stdout)
 
 
